@@ -2014,7 +2014,7 @@ package leveldb
 //@ ghost var gItPrevHas bool
 //@ ghost var gItPrevU key
 //@ func (*dbIter).next
-//@   props C02 C03
+//@   props C02 C03 C11
 //@   abstract keys
 //@   safety off
 //@   at entry
@@ -2026,12 +2026,12 @@ package leveldb
 //@     ghost gItHas = (gItHas || seq <= i.seq)
 //@     ghost gItU = (seq <= i.seq ? krank(ukey) : gItU)
 //@   loop 1
-//@     invariant [C02,C03:barrier-covers-the-last-visible-key] (gItHas ==> (i.dir != dirSOI && gItU <= krank(i.key))) && (i.dir != dirSOI ==> gItHas)
-//@     invariant [C02,C03:no-error-so-far] i.err == old(i.err)
+//@     invariant [C02,C03,C11:barrier-covers-the-last-visible-key] (gItHas ==> (i.dir != dirSOI && gItU <= krank(i.key))) && (i.dir != dirSOI ==> gItHas)
+//@     invariant [C02,C03,C11:no-error-so-far] i.err == old(i.err)
 //@   at before stmt return true
-//@     assert [C02,C03:newest-visible-version-of-a-new-key] seq <= i.seq && kt == keyTypeVal && (!gItPrevHas || gItPrevU != krank(ukey))
-//@   ensures [C02,C03:stepping-off-the-end-is-remembered] !result ==> (i.dir == dirEOI || i.err != nil)
-//@   ensures [C02,C03:a-hit-leaves-the-iterator-on-it] result ==> (i.dir == dirForward && i.err == old(i.err))
+//@     assert [C02,C03,C11:newest-visible-version-of-a-new-key] seq <= i.seq && kt == keyTypeVal && (!gItPrevHas || gItPrevU != krank(ukey))
+//@   ensures [C02,C03,C11:stepping-off-the-end-is-remembered] !result ==> (i.dir == dirEOI || i.err != nil)
+//@   ensures [C02,C03,C11:a-hit-leaves-the-iterator-on-it] result ==> (i.dir == dirForward && i.err == old(i.err))
 
 // A backward step: entries arrive with user keys descending and, within a user key, oldest first; the candidate the
 // step returns is the last visible entry recorded for its user key (hence the newest visible version), it is a
@@ -2046,7 +2046,7 @@ package leveldb
 //@ ghost var gPvErrSeen bool
 //@ ghost var gPvErr bool
 //@ func (*dbIter).prev
-//@   props C02 C03 C08
+//@   props C02 C03 C08 C11
 //@   abstract keys
 //@   safety off
 //@   at entry
@@ -2059,8 +2059,8 @@ package leveldb
 //@     ghost gPvIsVal = (seq <= i.seq ? kt != keyTypeDel : gPvIsVal)
 //@     ghost gPvU = (seq <= i.seq ? krank(ukey) : gPvU)
 //@   loop 1
-//@     invariant [C02,C03:candidate-is-the-last-visible-entry] (!del ==> (gPvHas && gPvIsVal && gPvU == krank(i.key))) && (del ==> (!gPvHas || !gPvIsVal))
-//@     invariant [C02,C03:direction-kept] i.dir == dirBackward
+//@     invariant [C02,C03,C11:candidate-is-the-last-visible-entry] (!del ==> (gPvHas && gPvIsVal && gPvU == krank(i.key))) && (del ==> (!gPvHas || !gPvIsVal))
+//@     invariant [C02,C03,C11:direction-kept] i.dir == dirBackward
 // (C02 / C08: the backward walk ends where the source says it has no previous entry - and a source that stopped
 // because a read failed has not reached its start: the candidate gathered so far may be an older version of its key
 // than one in the block that could not be read. The walk may only end after the source's error was looked at and
@@ -2073,11 +2073,11 @@ package leveldb
 //@   at before stmt break#1
 //@     assert [C02,C03,C08:the-backward-walk-ends-only-at-a-start-reached-without-error] gPvErrSeen && !gPvErr
 //@   at before stmt return true#1
-//@     assert [C02,C03:newest-visible-version-complete] gPvPrevHas && gPvPrevIsVal && gPvPrevU == krank(i.key) && krank(ukey) != krank(i.key) && seq <= i.seq
+//@     assert [C02,C03,C11:newest-visible-version-complete] gPvPrevHas && gPvPrevIsVal && gPvPrevU == krank(i.key) && krank(ukey) != krank(i.key) && seq <= i.seq
 //@   at before stmt return true#2
-//@     assert [C02,C03:newest-visible-version-at-the-start] gPvHas && gPvIsVal && gPvU == krank(i.key)
-//@   ensures [C02,C03:stepping-off-the-start-is-remembered] !result ==> (i.dir == dirSOI || i.err != nil)
-//@   ensures [C02,C03:a-hit-leaves-the-iterator-on-it] result ==> i.dir == dirBackward
+//@     assert [C02,C03,C11:newest-visible-version-at-the-start] gPvHas && gPvIsVal && gPvU == krank(i.key)
+//@   ensures [C02,C03,C11:stepping-off-the-start-is-remembered] !result ==> (i.dir == dirSOI || i.err != nil)
+//@   ensures [C02,C03,C11:a-hit-leaves-the-iterator-on-it] result ==> i.dir == dirBackward
 
 // ---------------------------------------------------------------------------
 // C07: the janitor that runs at open removes a manifest or journal only if it is older than the live one (the
@@ -2086,14 +2086,14 @@ package leveldb
 //@ spec func stale(db ref, fd ref) bool = (fd.Type == storage.TypeManifest && fd.Num != db.s.manifestFd.Num) || (fd.Type == storage.TypeJournal && ((db.frozenJournalFd.Type != 0 || db.frozenJournalFd.Num != 0) ? fd.Num < db.frozenJournalFd.Num : fd.Num < db.journalFd.Num)) || fd.Type == storage.TypeTable || fd.Type == storage.TypeTemp
 //@ ghost var gTableListed bool
 //@ func (*DB).checkAndCleanFiles
-//@   props C07
+//@   props C07 C04
 //@   safety off
 //@   loop 3
-//@     invariant [C07:only-stale-files-are-listed] forall k int :: 0 <= k && k < len(rem) ==> stale(db, rem[k])
+//@     invariant [C04,C07:only-stale-files-are-listed] forall k int :: 0 <= k && k < len(rem) ==> stale(db, rem[k])
 //@   loop 5
-//@     invariant [C07:only-stale-files-are-listed] forall k int :: 0 <= k && k < len(rem) ==> stale(db, rem[k])
+//@     invariant [C04,C07:only-stale-files-are-listed] forall k int :: 0 <= k && k < len(rem) ==> stale(db, rem[k])
 //@   at before call storage.Storage.Remove#1
-//@     assert [C07:only-stale-files-are-removed] stale(db, fd)
+//@     assert [C04,C07:only-stale-files-are-removed] stale(db, fd)
 // ... and the converse for the files whose fate does not go through the Go map: a manifest or journal older than the
 // live one, and a temporary file (left by an interrupted table rebuild of Recover; no running DB owns one), is never
 // kept (F13: temporary files used to be kept for ever). Any manifest but the live one is stale, also one with a higher
@@ -2115,24 +2115,24 @@ package leveldb
 // tables the entry with the highest sequence number wins; at a deeper level the first table holding the user key
 // decides and stops the walk; a table without the user key changes nothing and lets the walk go on.
 //@ func (*version).get$1
-//@   props C01 C19 C16
+//@   props C01 C19 C16 C03 C11
 //@   abstract keys
 //@   safety off
-//@   guarantees [C01,C19:other-keys-change-nothing] (result && ferr == nil) ==> ((kcmp(ukey, fukey) != 0) ==> (zfound == old(zfound) && zseq == old(zseq) && zkt == old(zkt) && err == old(err)))
-//@   guarantees [C01,C19:level-0-keeps-the-newest] (ferr == nil) ==> ((fkerr == nil && kcmp(ukey, fukey) == 0 && level <= 0) ==> (result && zseq >= old(zseq) && zseq >= fseq && (fseq >= old(zseq) ==> zfound) && (fseq >= old(zseq) ==> (zseq == fseq && zkt == fkt)) && (fseq < old(zseq) ==> (zseq == old(zseq) && zkt == old(zkt) && zfound == old(zfound)))))
-//@   guarantees [C01,C19:deeper-level-first-hit-decides] (ferr == nil) ==> ((fkerr == nil && kcmp(ukey, fukey) == 0 && level > 0) ==> (!result && (fkt == keyTypeVal ==> err == nil) && (fkt == keyTypeDel ==> err == old(err))))
-//@   guarantees [C01,C19:table-error-stops-the-walk] (ferr != nil && ferr != ErrNotFound) ==> (!result && err == ferr)
+//@   guarantees [C01,C03,C11,C19:other-keys-change-nothing] (result && ferr == nil) ==> ((kcmp(ukey, fukey) != 0) ==> (zfound == old(zfound) && zseq == old(zseq) && zkt == old(zkt) && err == old(err)))
+//@   guarantees [C01,C03,C11,C19:level-0-keeps-the-newest] (ferr == nil) ==> ((fkerr == nil && kcmp(ukey, fukey) == 0 && level <= 0) ==> (result && zseq >= old(zseq) && zseq >= fseq && (fseq >= old(zseq) ==> zfound) && (fseq >= old(zseq) ==> (zseq == fseq && zkt == fkt)) && (fseq < old(zseq) ==> (zseq == old(zseq) && zkt == old(zkt) && zfound == old(zfound)))))
+//@   guarantees [C01,C03,C11,C19:deeper-level-first-hit-decides] (ferr == nil) ==> ((fkerr == nil && kcmp(ukey, fukey) == 0 && level > 0) ==> (!result && (fkt == keyTypeVal ==> err == nil) && (fkt == keyTypeDel ==> err == old(err))))
+//@   guarantees [C01,C03,C11,C19:table-error-stops-the-walk] (ferr != nil && ferr != ErrNotFound) ==> (!result && err == ferr)
 // (C16: "not in this table" is also what a filter miss looks like; a table - of any level - that does not have the key
 // says nothing about older tables, so the walk goes on)
-//@   guarantees [C01,C16,C19:a-table-without-the-key-lets-the-walk-go-on] ferr == ErrNotFound ==> (result && zfound == old(zfound) && err == old(err))
+//@   guarantees [C01,C03,C11,C16,C19:a-table-without-the-key-lets-the-walk-go-on] ferr == ErrNotFound ==> (result && zfound == old(zfound) && err == old(err))
 // Callback 2 runs after each level: a level-0 hit ends the lookup with the winner's value or, for a deletion
 // marker, with not-found.
 //@ func (*version).get$2
-//@   props C01 C19
+//@   props C01 C19 C03 C11
 //@   abstract keys
 //@   safety off
-//@   ensures [C01,C19:level-0-winner-ends-the-lookup] old(zfound) ==> (!result && (zkt == keyTypeVal ==> err == nil) && (zkt == keyTypeDel ==> err == old(err)))
-//@   ensures [C01,C19:no-hit-goes-deeper] !old(zfound) ==> (result && err == old(err))
+//@   ensures [C01,C03,C11,C19:level-0-winner-ends-the-lookup] old(zfound) ==> (!result && (zkt == keyTypeVal ==> err == nil) && (zkt == keyTypeDel ==> err == old(err)))
+//@   ensures [C01,C03,C11,C19:no-hit-goes-deeper] !old(zfound) ==> (result && err == old(err))
 
 // C20 on the same callbacks: the value version.get hands out is only ever one that tOps.find returned (a private
 // copy) - directly, or through the level-0 candidate zval.
